@@ -84,7 +84,20 @@ def oracle_weight(case) -> Result:
     C = x.shape[0]
     q_int = MinMaxWeight(b, C, symmetric=True, dequantize=False)
     q_deq = MinMaxWeight(b, C, symmetric=True, dequantize=True)
+    for q in (q_int, q_deq):
+        if case.get('eval'):
+            q.eval()
+        if case.get('warm'):
+            # an earlier tensor of the same shape with a wider / narrower range
+            q(x.clone() * (37.0 if case['xseed'] % 2 else 1 / 37.0) + 0.5)
     yi = q_int(x.clone())
+    if case.get('warm') or case.get('eval'):
+        # the output is a function of the current input only: a fresh object agrees bit by bit
+        y_fresh = MinMaxWeight(b, C, symmetric=True, dequantize=False)(x.clone())
+        if not torch.equal(torch.nan_to_num(yi), torch.nan_to_num(y_fresh)):
+            res.bad('weight-output-depends-on-earlier-calls', bits=b, eval=bool(case.get('eval')),
+                    earlier_call=bool(case.get('warm')),
+                    n_diff=int((yi != y_fresh).sum()))
     yd = q_deq(x.clone())
     scale = q_deq.scale
     if not torch.isfinite(yi).all() or not torch.isfinite(yd).all() or not torch.isfinite(scale).all():
@@ -127,6 +140,7 @@ def oracle_weight(case) -> Result:
     res.nontrivial = levels >= 3 or b <= 2
     res.ev(f"bits:{b}", *[f"ch:{k}" for k in set(case['kinds'])])
     res.obs = {'distinct_levels': levels, 'min': float(yi.min()), 'max': float(yi.max())}
+    res.ev('history:' + ('eval' if case.get('eval') else 'train') + ('+earlier-call' if case.get('warm') else ''))
     return res
 
 
@@ -240,7 +254,9 @@ def weight_cases(draw):
     return {'bits': draw(st.sampled_from(W_BITS)), 'n': draw(st.sampled_from([1, 2, 3, 9, 32])),
             'exps': draw(st.lists(st.integers(-30, 13), min_size=C, max_size=C)),
             'kinds': draw(st.lists(st.sampled_from(CH_KINDS), min_size=C, max_size=C)),
-            'conv_shape': draw(st.booleans()), 'xseed': draw(st.integers(0, 10 ** 6))}
+            'conv_shape': draw(st.booleans()), 'xseed': draw(st.integers(0, 10 ** 6)),
+            # call history of the quantizer object: its output depends on the current input only
+            'eval': draw(st.booleans()), 'warm': draw(st.booleans())}
 
 
 @st.composite
